@@ -13,7 +13,7 @@ import (
 )
 
 // crashRec: recursion over possibly cyclic schema/document graphs must make progress.
-func crashRec(r *core.Report, cs *crashScope) {
+func crashRec(r *core.Report, cs *crashScope, extra func(site ssa.CallInstruction, callee *ssa.Function) string) {
 	p := r.Prog
 	r.RunRule(cs.id+".rec", "recursion makes progress: for every call edge inside a cycle of the call graph (reachable repo functions) whose callee takes a *Schema/*SchemaRef (a possibly cyclic graph — document validation accepts recursive schemas), either an instance argument (the value, string or map being traversed) is a strict sub-component of the caller's (element of a range, index, map lookup, slice, struct field of an element), or the call is dominated by a visited-set/stack/depth test; an edge that re-passes the same instance with a sub-schema and no guard recurses forever on a cyclic schema", 3, func() {
 		cg := p.CallGraph()
@@ -180,6 +180,9 @@ func crashRec(r *core.Report, cs *crashScope) {
 					if w := instanceProbed(e.Site); w != "" {
 						progress = w
 					}
+				}
+				if progress == "" && extra != nil {
+					progress = extra(e.Site, g)
 				}
 				if progress != "" {
 					edges = append(edges, edge{key, p.Pos(e.Site.Pos()), progress, true})
